@@ -143,83 +143,7 @@ func c04(c *core.Ctx, r *core.Report) {
 		r.Floor("go statements starting workers", nGo, 2)
 	})
 
-	rule(r, "C04.R2", "each pool's state slice is made fresh with length numWorkers; every element is a newly created state holding a newly created T; the pool's numWorkers is the same value; creation sites pass the configured concurrency", func() {
-		// constructors: functions of internal/workers storing into a field of type []*iterationState
-		n := 0
-		for _, fn := range c.AllFuncs {
-			if core.RelPkg(fn) != "internal/workers" {
-				continue
-			}
-			an.Instrs(fn, func(in ssa.Instruction) {
-				st, ok := in.(*ssa.Store)
-				if !ok {
-					return
-				}
-				fld := an.FieldOfAddr(st.Addr)
-				if fld == nil || !strings.Contains(types.TypeString(fld.Type(), nil), "[]*") || !strings.Contains(types.TypeString(fld.Type(), nil), "iterationState") {
-					return
-				}
-				n++
-				owner := ownerNameOf(st.Addr.(*ssa.FieldAddr).X.Type())
-				key := core.FuncName(fn) + "#" + owner + "." + fld.Name()
-				mk, ok := an.Strip(st.Val).(*ssa.Call)
-				if !ok || an.Callee(mk) == nil {
-					r.Violation(key, an.Pos(c, in), "the pool's state slice is %s, not a freshly built slice", an.D().Of(st.Val))
-					return
-				}
-				maker := an.Callee(mk)
-				nArg := mk.Call.Args[len(mk.Call.Args)-1]
-				// the same value must be stored in the pool's int field (numWorkers)
-				var lit *ssa.Alloc
-				if fa, ok := st.Addr.(*ssa.FieldAddr); ok {
-					lit, _ = fa.X.(*ssa.Alloc)
-				}
-				if lit != nil {
-					same := false
-					for name, v := range an.LiteralFields(lit) {
-						if b, ok := v.Type().Underlying().(*types.Basic); ok && b.Kind() == types.Int {
-							if an.Strip(v) == an.Strip(nArg) {
-								same = true
-							} else {
-								r.Violation(key+"#"+name, an.Pos(c, in), "pool field %s is %s but the state slice is built for %s workers", name, an.D().Of(v), an.D().Of(nArg))
-							}
-						}
-					}
-					if !same {
-						r.Undecided(key+"#numWorkers", an.Pos(c, in), "no int field of the pool literal holds the worker count")
-					}
-				}
-				if _, isParam := an.Strip(nArg).(*ssa.Parameter); !isParam {
-					r.Violation(key+"#count", an.Pos(c, in), "state slice built for %s workers instead of the constructor's worker-count parameter", an.D().Of(nArg))
-				}
-				checkStateMaker(c, r, maker)
-				r.OK(key, an.Pos(c, in), "state slice = %s", an.D().Of(st.Val))
-			})
-		}
-		r.Floor("pool constructors", n, 2)
-		// creation sites outside the package pass the configured concurrency
-		m := 0
-		for _, fn := range c.AllFuncs {
-			if core.RelPkg(fn) == "internal/workers" {
-				continue
-			}
-			for _, call := range an.AllCalls(fn) {
-				t := an.Callee(call)
-				if t == nil || t.Signature.Recv() == nil || !an.IsNamed(t.Signature.Recv().Type(), workersPkg, "PoolManager") || !strings.HasPrefix(t.Name(), "New") {
-					continue
-				}
-				m++
-				d := stripCaret(an.D().Of(call.Common().Args[1]))
-				okSrc := strings.HasSuffix(d, ".Concurrency") || strings.HasSuffix(d, "$concurrency") || d == "$concurrency"
-				if okSrc && d == "$concurrency" {
-					// a parameter: its call sites must pass a Concurrency field
-					okSrc = concurrencyParamSources(c, an.Outermost(fn), r)
-				}
-				r.Check(okSrc, core.FuncName(fn)+"#"+t.Name()+"-count", an.Pos(c, call), "worker count is "+d, "pool created with "+d+" workers, not the configured concurrency")
-			}
-		}
-		r.Floor("pool creation sites", m, 2)
-	})
+	rule(r, "C04.R2", freshStateText, func() { freshStateRule(c, r) })
 
 	rule(r, "C04.R3", "start barrier: the start WaitGroup is Added numWorkers before the workers are spawned, each worker calls Done exactly once before its loop, and either Start waits for it before returning or every worker waits for it before its loop", func() {
 		n := 0
@@ -463,4 +387,85 @@ func concurrencyParamSources(c *core.Ctx, fn *ssa.Function, r *core.Report) bool
 		}
 	}
 	return ok
+}
+
+const freshStateText = "each pool's state slice is made fresh with length numWorkers; every element is a newly created state holding a newly created T; the pool's numWorkers is the same value; creation sites pass the configured concurrency"
+
+// freshStateRule is C04.R2 (= C07.R5): test handles are owned by exactly one worker of one pool.
+func freshStateRule(c *core.Ctx, r *core.Report) {
+	// constructors: functions of internal/workers storing into a field of type []*iterationState
+	n := 0
+	for _, fn := range c.AllFuncs {
+		if core.RelPkg(fn) != "internal/workers" {
+			continue
+		}
+		an.Instrs(fn, func(in ssa.Instruction) {
+			st, ok := in.(*ssa.Store)
+			if !ok {
+				return
+			}
+			fld := an.FieldOfAddr(st.Addr)
+			if fld == nil || !strings.Contains(types.TypeString(fld.Type(), nil), "[]*") || !strings.Contains(types.TypeString(fld.Type(), nil), "iterationState") {
+				return
+			}
+			n++
+			owner := ownerNameOf(st.Addr.(*ssa.FieldAddr).X.Type())
+			key := core.FuncName(fn) + "#" + owner + "." + fld.Name()
+			mk, ok := an.Strip(st.Val).(*ssa.Call)
+			if !ok || an.Callee(mk) == nil {
+				r.Violation(key, an.Pos(c, in), "the pool's state slice is %s, not a freshly built slice", an.D().Of(st.Val))
+				return
+			}
+			maker := an.Callee(mk)
+			nArg := mk.Call.Args[len(mk.Call.Args)-1]
+			// the same value must be stored in the pool's int field (numWorkers)
+			var lit *ssa.Alloc
+			if fa, ok := st.Addr.(*ssa.FieldAddr); ok {
+				lit, _ = fa.X.(*ssa.Alloc)
+			}
+			if lit != nil {
+				same := false
+				for name, v := range an.LiteralFields(lit) {
+					if b, ok := v.Type().Underlying().(*types.Basic); ok && b.Kind() == types.Int {
+						if an.Strip(v) == an.Strip(nArg) {
+							same = true
+						} else {
+							r.Violation(key+"#"+name, an.Pos(c, in), "pool field %s is %s but the state slice is built for %s workers", name, an.D().Of(v), an.D().Of(nArg))
+						}
+					}
+				}
+				if !same {
+					r.Undecided(key+"#numWorkers", an.Pos(c, in), "no int field of the pool literal holds the worker count")
+				}
+			}
+			if _, isParam := an.Strip(nArg).(*ssa.Parameter); !isParam {
+				r.Violation(key+"#count", an.Pos(c, in), "state slice built for %s workers instead of the constructor's worker-count parameter", an.D().Of(nArg))
+			}
+			checkStateMaker(c, r, maker)
+			r.OK(key, an.Pos(c, in), "state slice = %s", an.D().Of(st.Val))
+		})
+	}
+	r.Floor("pool constructors", n, 2)
+	// creation sites outside the package pass the configured concurrency
+	m := 0
+	for _, fn := range c.AllFuncs {
+		if core.RelPkg(fn) == "internal/workers" {
+			continue
+		}
+		for _, call := range an.AllCalls(fn) {
+			t := an.Callee(call)
+			if t == nil || t.Signature.Recv() == nil || !an.IsNamed(t.Signature.Recv().Type(), workersPkg, "PoolManager") || !strings.HasPrefix(t.Name(), "New") {
+				continue
+			}
+			m++
+			d := stripCaret(an.D().Of(call.Common().Args[1]))
+			okSrc := strings.HasSuffix(d, ".Concurrency") || strings.HasSuffix(d, "$concurrency") || d == "$concurrency"
+			if okSrc && d == "$concurrency" {
+				// a parameter: its call sites must pass a Concurrency field
+				okSrc = concurrencyParamSources(c, an.Outermost(fn), r)
+			}
+			r.Check(okSrc, core.FuncName(fn)+"#"+t.Name()+"-count", an.Pos(c, call), "worker count is "+d, "pool created with "+d+" workers, not the configured concurrency")
+		}
+	}
+	r.Floor("pool creation sites", m, 2)
 }
